@@ -614,7 +614,9 @@ def find_definite_isometry(partial_map, force_oriented=False):
 
         For all `j <= k`, the subspace spanned by the first `j`
         standard basis vectors is sent to the subspace spanned by the
-        first `j` rows of the result.
+        first `j` rows of `partial_map`. The result acts on column
+        vectors, i.e. this subspace is spanned by the first `j`
+        *columns* of the result.
 
     """
     pmap = np.array(partial_map)
@@ -623,17 +625,20 @@ def find_definite_isometry(partial_map, force_oriented=False):
     h, w = pmap.shape[-2:]
     n = max(h, w)
     if w > h:
-        mat = np.concatenate([pmap.swapaxes(-1, -2),
-                             np.identity(n)], axis=-1)
-    else:
-        mat = np.concatenate([pmap, np.identity(n)], axis=-1)
+        pmap = pmap.swapaxes(-1, -2)
+
+    ident = np.broadcast_to(np.identity(n), pmap.shape[:-2] + (n, n))
+    mat = np.concatenate([pmap, ident], axis=-1)
 
     q, r = np.linalg.qr(mat)
 
-    iso = np.sign(r[..., 0,0]) * q
+    iso = np.sign(r[..., :1, :1]) * q
 
     if force_oriented:
-        iso = make_orientation_preserving(iso)
+        # the images of the standard basis vectors are the columns of
+        # iso, so reflect in the last column to keep the flag
+        iso = make_orientation_preserving(
+            iso.swapaxes(-1, -2)).swapaxes(-1, -2)
 
     return iso
 
